@@ -2,9 +2,9 @@ package checks
 
 import (
 	"bytes"
+	"context"
 	"crypto/md5"
 	"encoding/hex"
-	"context"
 	"fmt"
 	"io"
 	"os"
